@@ -1,5 +1,6 @@
 import Syzgy.Lemmas.Scan
 import Syzgy.Lemmas.Crash
+import Syzgy.Lemmas.CrashColl
 /-!
 # C07 — crash between storage steps
 
@@ -96,5 +97,87 @@ theorem recovery_keeps_newer (P Q T : List Seg) (sa sb : Nat) (rid : Bytes) (sta
     starts with creation -/
 theorem new_file_invariants : ∃ s0, openFile none .createIfNotExists = .ok s0 ∧ Rep s0 [.act 0 [] [] 0] ∧
     SeqBelow s0.seq [.act 0 [] [] 0] := init_seqBelow
+
+/-! ## the same at the level of documents and `NewCollection` -/
+
+/-- **Crash at any storage step of any document operation.** On a collection that satisfies its invariant
+    (`CRep2`, `SeqBelow`) and represents the store `docs`: whenever `AddDocument` (new id or overwrite,
+    with or without file growth), `UpdateDocument` or a removal runs, every one of its crash images
+    reopens — `NewCollection` in a writable mode with any caller options succeeds, including the header
+    read and the index rebuild over every record — as a collection with the creation options whose
+    header is intact and which represents the store before the operation or the store after it: the
+    affected document is entirely old or entirely new, every other document is untouched. -/
+theorem crash_during_any_document_operation (c : Coll) (segs : List Seg) (docs : DocStore) (h : CRep2 c segs docs)
+    (hseq : SeqBelow c.sf.seq segs) (op : DocOp) (hf : DocOpFits2 c docs op)
+    (name : Bytes) (opts : Cfg) (mode : FileMode) (hmode : mode = .readWrite ∨ mode = .createIfNotExists)
+    (dec : Bytes → Cfg → Option Cfg) (s0 : Stream) (more : List Stream)
+    (hh : docOf [] segs = some (s0 :: more)) (hdec : dec s0.data opts = some c.cfg)
+    (hmetric : c.cfg.metric = 0 ∨ c.cfg.metric = 1)
+    (c1 : Coll) (m : Mut) (hstep : docStep c op = .ok (c1, m)) :
+    ∀ img ∈ m.images, ∃ c' segs', newCollection (some img.2) name opts mode dec = .ok c' ∧ c'.cfg = c.cfg ∧
+      docOf [] segs' = docOf [] segs ∧ (CRep2 c' segs' docs ∨ CRep2 c' segs' (docSpec docs op)) :=
+  doc_crash_safe c segs docs h hseq op hf name opts mode hmode dec s0 more hh hdec hmetric c1 m hstep
+
+/-- … **in every reachable state**: after any history of document operations (each within the format's
+    32-bit limits, sequence counter not wrapping) -/
+theorem crash_after_any_document_history (ops : List DocOp) (c : Coll) (segs : List Seg) (docs : DocStore)
+    (h : CRep2 c segs docs) (hseq : SeqBelow c.sf.seq segs) (hf : DocFitsAllW c docs ops)
+    (op : DocOp) (hop : DocOpFits2 (ops.foldl applyDocOp c) (ops.foldl docSpec docs) op)
+    (name : Bytes) (opts : Cfg) (mode : FileMode) (hmode : mode = .readWrite ∨ mode = .createIfNotExists)
+    (dec : Bytes → Cfg → Option Cfg) (s0 : Stream) (more : List Stream)
+    (hh : docOf [] segs = some (s0 :: more)) (hdec : dec s0.data opts = some c.cfg)
+    (hmetric : c.cfg.metric = 0 ∨ c.cfg.metric = 1)
+    (c1 : Coll) (m : Mut) (hstep : docStep (ops.foldl applyDocOp c) op = .ok (c1, m)) :
+    ∀ img ∈ m.images, ∃ c' segs', newCollection (some img.2) name opts mode dec = .ok c' ∧ c'.cfg = c.cfg ∧
+      docOf [] segs' = docOf [] segs ∧
+      (CRep2 c' segs' (ops.foldl docSpec docs) ∨ CRep2 c' segs' ((ops ++ [op]).foldl docSpec docs)) :=
+  crash_after_any_doc_history ops c segs docs h hseq hf op hop name opts mode hmode dec s0 more hh hdec hmetric c1 m hstep
+
+/-- **No older version comes back.** The collection recovered from a crash image satisfies the full
+    invariant, so everything proved for collections applies to it: continuing with any operations
+    (removing the affected document included) and reopening again yields exactly what the
+    specification computes from the recovered store — a version superseded before the crash, or
+    removed afterwards, cannot reappear. -/
+theorem recovered_collection_continues (c : Coll) (segs : List Seg) (docs : DocStore) (h : CRep2 c segs docs)
+    (hseq : SeqBelow c.sf.seq segs) (op : DocOp) (hf : DocOpFits2 c docs op)
+    (name : Bytes) (opts : Cfg) (mode : FileMode) (hmode : mode = .readWrite ∨ mode = .createIfNotExists)
+    (dec : Bytes → Cfg → Option Cfg) (s0 : Stream) (more : List Stream)
+    (hh : docOf [] segs = some (s0 :: more)) (hdec : dec s0.data opts = some c.cfg)
+    (hmetric : c.cfg.metric = 0 ∨ c.cfg.metric = 1)
+    (c1 : Coll) (m : Mut) (hstep : docStep c op = .ok (c1, m)) :
+    ∀ img ∈ m.images, ∃ c' D, newCollection (some img.2) name opts mode dec = .ok c' ∧ (D = docs ∨ D = docSpec docs op) ∧
+      ∀ (ops2 : List DocOp) (segs' : List Seg), CRep2 c' segs' D → DocFitsAll2 c' D ops2 →
+        ∀ mode2, mode2 ≠ .createAndOverwrite →
+          ∃ c'', newCollection (some (ops2.foldl applyDocOp c').sf.file) name opts mode2 dec = .ok c'' ∧
+            (∀ id, getDocument c'' id = match ops2.foldl docSpec D id with
+              | none => .err "record not found"
+              | some d => .ok d) ∧
+            (∀ id, id ∈ getAllIDs c'' ↔ ops2.foldl docSpec D id ≠ none) := by
+  intro img himg
+  obtain ⟨c', segs', e1, e2, e3, e4⟩ :=
+    doc_crash_safe c segs docs h hseq op hf name opts mode hmode dec s0 more hh hdec hmetric c1 m hstep img himg
+  have key : ∀ D, CRep2 c' segs' D → ∀ (ops2 : List DocOp) (segs'' : List Seg), CRep2 c' segs'' D → DocFitsAll2 c' D ops2 →
+        ∀ mode2, mode2 ≠ .createAndOverwrite →
+          ∃ c'', newCollection (some (ops2.foldl applyDocOp c').sf.file) name opts mode2 dec = .ok c'' ∧
+            (∀ id, getDocument c'' id = match ops2.foldl docSpec D id with
+              | none => .err "record not found"
+              | some d => .ok d) ∧
+            (∀ id, id ∈ getAllIDs c'' ↔ ops2.foldl docSpec D id ≠ none) := by
+    intro D hD ops2 _ _ hfits mode2 hm2
+    obtain ⟨c'', g1, _, _, g4, g5⟩ := reopen_after_doc_history ops2 c' segs' D hD hfits name opts mode2 hm2 dec s0 more
+      (by rw [e3]; exact hh) (by rw [e2]; exact hdec) (by rw [e2]; exact hmetric)
+    exact ⟨c'', g1, g4, g5⟩
+  rcases e4 with hD | hD
+  · exact ⟨c', docs, e1, Or.inl rfl, key docs hD⟩
+  · exact ⟨c', docSpec docs op, e1, Or.inr rfl, key _ hD⟩
+
+/-- the invariants hold in a newly created collection, and its header holds the encoded options, so the
+    theorems above apply to every history that starts with creation -/
+theorem new_collection_invariants (name : Bytes) (opts : Cfg) (hq : Supported opts.quant)
+    (hm : opts.metric = 0 ∨ opts.metric = 1) (hlen : (encodeOpts name opts).length < 1000000000) :
+    ∃ c segs, newCollection none name opts .createIfNotExists = .ok c ∧ c.cfg = opts ∧
+      CRep2 c segs (fun _ => none) ∧ SeqBelow c.sf.seq segs ∧
+      docOf [] segs = some [{ id := 0, data := encodeOpts name opts }] :=
+  new_collection_inv name opts hq hm hlen
 
 end Syzgy.C07
